@@ -1260,7 +1260,7 @@ def laurent(ctx, z, C, m, reverse=False, scheme=None):
     elif m > 0:
         return fast_polynomial(ctx, z, C, reverse=reverse, scheme=scheme) * fast_exponent_by_squaring(ctx, z, m)
     elif -m < len(C):
-        rz = ctx.reciprocal(z)
+        rz = ctx.reciprocal(z) if hasattr(ctx, "reciprocal") else ctx.constant(1, z) / z
         if reverse:
             N = [0] + C[m:]
             P = C[:m]
@@ -1271,7 +1271,7 @@ def laurent(ctx, z, C, m, reverse=False, scheme=None):
             ctx, z, P, reverse=reverse, scheme=scheme
         )
     else:
-        rz = ctx.reciprocal(z)
+        rz = ctx.reciprocal(z) if hasattr(ctx, "reciprocal") else ctx.constant(1, z) / z
         return fast_polynomial(ctx, rz, C, reverse=not reverse, scheme=scheme) * fast_exponent_by_squaring(
             ctx, rz, -m - len(C) + 1
         )
